@@ -126,6 +126,23 @@ def _eliminate_returns(stmts, ret_name, at):
                 return out, tr
             # a return somewhere deeper that does not end the branch: would need a flag
             raise _CannotInline("partial return in a nested branch")
+        if isinstance(s, ast.With) and _contains_return([s]):
+            b, tb = _eliminate_returns(s.body, ret_name, at)
+            if not tb:
+                raise _CannotInline("partial return inside with")
+            out.append(ast.copy_location(ast.With(items=s.items, body=b), s))
+            return out, True
+        if isinstance(s, ast.Try) and _contains_return([s]) and not s.finalbody and not s.orelse:
+            b, tb = _eliminate_returns(s.body, ret_name, at)
+            hs, all_t = [], tb
+            for h in s.handlers:
+                hb, th = _eliminate_returns(h.body, ret_name, at)
+                all_t = all_t and th
+                hs.append(ast.copy_location(ast.ExceptHandler(type=h.type, name=h.name, body=hb or [ast.Pass()]), h))
+            if not all_t:
+                raise _CannotInline("return on some paths of a try statement only")
+            out.append(ast.copy_location(ast.Try(body=b, handlers=hs, orelse=[], finalbody=[]), s))
+            return out, True
         if _contains_return([s]):
             raise _CannotInline(f"return inside {type(s).__name__}")
         out.append(s)
